@@ -202,6 +202,9 @@ var killOps = []Op{{"RegConn", "bt"}, {"DropConn", "bt"}, {"Kill", "bt"}}
 // advertised both services must be served.
 var listOps = []Op{{"RegConn", "bd"}, {"DropConn", "bd"}, {"List", "d1"}, {"List", "all"}, {"Rev", "2"}}
 
+// listBadOps: the listed set and the invalid revision together.
+var listBadOps = []Op{{"RegConn", "bd"}, {"DropConn", "bd"}, {"List", "d1"}, {"List", "all"}, {"Rev", "bad"}, {"Rev", "1"}}
+
 var extOps = append(append(append([]Op{{"List", "d1"}, {"List", "all"}, {"RegConn", "bh"}, {"DropConn", "bh"}}, revOps2...), allOps...), Op{"RegConn", "b3x"}, Op{"DropConn", "b3x"}, Op{"RegConn", "b4"}, Op{"DropConn", "b4"})
 
 func randomHistory(rng *rand.Rand, minLen, maxLen int) History {
@@ -324,6 +327,33 @@ func RunC11(r *mon.Run) {
 		var keep []History
 		for _, h := range enumerate(listOps, L) {
 			if h[0].K == "List" && h[0].B == "d1" {
+				keep = append(keep, h)
+			}
+		}
+		total += len(keep)
+		outs := g.runAll(keep, Draws)
+		for i, h := range keep {
+			g.account(h, outs[i])
+			g.attribute(h, outs[i], Draws)
+		}
+	}
+	// the invalid revision while only D1 is listed: the flaw sits on D2,
+	// which the back-end then does not offer - its registration is valid
+	for L := 3; L <= 4; L++ {
+		var keep []History
+		for _, h := range enumerate(listBadOps, L) {
+			nl, nb, nr := 0, 0, 0
+			for _, o := range h {
+				switch {
+				case o.K == "List":
+					nl++
+				case o.K == "Rev":
+					nb++
+				case o.K == "RegConn" && o.B == "bd":
+					nr++
+				}
+			}
+			if nl >= 1 && nb >= 1 && nr >= 1 {
 				keep = append(keep, h)
 			}
 		}
